@@ -30,3 +30,93 @@ for fn in ('IS_SATISFIED', 'IS_SATURATED', 'IS_FORBIDDEN', 'INCREMENT_CALL', 'SE
     ob(name='handler_base.%s.contract' % fn.lower(), kind='FC', props=['C03'] + (['C07'] if fn in ('IS_FORBIDDEN', 'IS_SATISFIED', 'IS_SATURATED') else []),
        unit='handler_base', specs=['handler_base.spec'], contracts=[fn],
        harness='h_handler_base.c', entry='h_' + fn.lower(), enforce=fn)
+
+# ----------------------------------------------------------------------------------------------
+# unit world_ii: the whole call closure of one mock function int f(int) (mock_func, find, run_actions,
+# report paths, destructors, sequences) - lowered once, used by the h_world.c obligations
+_II = 'IFiiE'
+UNITS['world_ii'] = {
+    'opaque': [' get_lock$'],
+    'dyn_types': [r'^sequence_handler<[012]>$', r'^call_matcher<int\(int\),std::tuple<wildcard>>$'],
+    'ghost_fields': {r'^condition_base<int\(int\)>$': ['_Bool g_result'], r'^side_effect_base<int\(int\)>$': ['int g_throws'],
+                     r'^return_handler<int\(int\)>$': ['int g_throws', 'int g_value']},
+    'roots': {
+        'MOCK_FUNC': '9mock_funcILb0EFiiEJRiEE', 'FIND': '4findIFiiEE',
+        'CM': r'rec:^call_matcher<int\(int\),std::tuple<wildcard>>$', 'CMB': r'rec:^call_matcher_base<int\(int\)>$',
+        'SH0': 'rec:^sequence_handler<0>$', 'SH1': 'rec:^sequence_handler<1>$', 'SH2': 'rec:^sequence_handler<2>$',
+        'SM': 'rec:^sequence_matcher$', 'ST': 'rec:^sequence_type$', 'EXPS': r'rec:^expectations<false,int\(int\)>$',
+        'COND': r'rec:^condition_base<int\(int\)>$', 'SEFF': r'rec:^side_effect_base<int\(int\)>$', 'RETH': r'rec:^return_handler<int\(int\)>$',
+        'CM_DTOR': r'dtor:^call_matcher<int\(int\),std::tuple<wildcard>>$', 'EXPS_DTOR': r'dtor:^expectations<false,int\(int\)>$',
+        'ST_DTOR': 'dtor:^sequence_type$', 'COND_DTOR': r'dtor:^condition_base<int\(int\)>$', 'SEFF_DTOR': r'dtor:^side_effect_base<int\(int\)>$',
+        'IS_COMPLETED': '13sequence_type12is_completedEv',
+        'CM_IS_SATISFIED': r'12call_matcherIFiiESt5tupleIJNS_8wildcardEEEE12is_satisfiedEv', 'CM_IS_SATURATED': r'12call_matcherIFiiESt5tupleIJNS_8wildcardEEEE12is_saturatedEv',
+    },
+    'stub_aliases': {
+        'VS_COND_CHECK': r'^vs_.*condition_baseIFiiEE5check', 'VS_COND_NAME': r'^vs_.*condition_baseIFiiEE4name', 'VS_ACTION': r'^vs_.*side_effect_baseIFiiEE6action',
+        'VS_RET_CALL': r'^vs_.*return_handlerIFiiEE4call', 'VS_TRACE': r'^vs_.*6tracer5trace',
+        'VS_DTOR_COND': '^vs_dtor_S_condition_base_int_int$', 'VS_DTOR_SEFF': '^vs_dtor_S_side_effect_base_int_int$', 'VS_DTOR_RETH': '^vs_dtor_S_return_handler_int_int$',
+        'VS_CMB_MATCHES': r'^vs_.*call_matcher_baseIFiiEE7matches', 'VS_CMB_COST': r'^vs_.*call_matcher_baseIFiiEE13sequence_cost',
+        'VS_CMB_RUN_ACTIONS': r'^vs_.*call_matcher_baseIFiiEE11run_actions', 'VS_CMB_RETURN_VALUE': r'^vs_.*call_matcher_baseIFiiEE12return_value',
+        'VS_CMB_REPORT_MISMATCH': r'^vs_.*call_matcher_baseIFiiEE15report_mismatch', 'VS_CMB_REPORT_SIGNATURE': r'^vs_.*call_matcher_baseIFiiEE16report_signature',
+        'VS_CMB_MOCK_DESTROYED': r'^vs_.*call_matcher_baseIFiiEE14mock_destroyed',
+        'VS_SHB_CAN_BE_CALLED': r'^vs_.*sequence_handler_base13can_be_called', 'VS_SHB_ORDER': r'^vs_.*sequence_handler_base5order',
+        'VS_SHB_RETIRE': r'^vs_.*sequence_handler_base6retireEv', 'VS_SHB_RETIRE_PRED': r'^vs_.*sequence_handler_base19retire_predecessors',
+        'VS_SHB_VALIDATE': r'^vs_.*sequence_handler_base8validate', 'VS_DTOR_SHB': '^vs_dtor_S_sequence_handler_base$',
+    },
+}
+
+def shapes_where(n, allowed=(0, 1, 2)):
+    """all assignments of expectations 0..n-1 to {active, saturated, detached} as base-3 numbers"""
+    out = []
+    def rec(i, acc, tag):
+        if i == n: out.append((tag, acc)); return
+        for w in allowed: rec(i + 1, acc + w * 3 ** i, tag + 'ASD'[w])
+    rec(0, 0, '')
+    return out
+
+def world_variants(n, kmax, k2=False):
+    vs = []
+    for tag, w in shapes_where(n):
+        if not k2:
+            vs.append(('N%d.%s' % (n, tag), {'N': n, 'KMAX': kmax, 'W_WHERE': w}))
+        else:
+            # two-sequence expectations: K concrete; expectation 0 always has K=2
+            for wk in range(3 ** n):
+                if wk % 3 != 2: continue
+                ktag = ''.join(str((wk // 3 ** i) % 3) for i in range(n))
+                vs.append(('N%d.%s.K%s' % (n, tag, ktag), {'N': n, 'KMAX': 2, 'W_WHERE': w, 'W_K': wk}))
+    return vs
+
+_BOUND = 'heap shapes enumerated exhaustively: %s; every scalar (bounds, counts, flags, clause results, which handles are still registered) symbolic'
+ob(name='world.find.selection_rule', kind='BL', props=['C01', 'C02'], unit='world_ii', harness='h_world.c', entry='w_find',
+   variants=world_variants(3, 1), variants_thorough=world_variants(4, 1), unwind=7,
+   bound=_BOUND % 'N=3 expectations (thorough 4) x {active,saturated,detached}, <=1 of 2 sequences each, 1 condition each', min_reach=0)
+ob(name='world.find.selection_rule.two_sequences', kind='BL', props=['C02'], unit='world_ii', harness='h_world.c', entry='w_find',
+   variants=world_variants(2, 2, True), unwind=7, timeout=900,
+   bound=_BOUND % 'N=2 expectations, expectation 0 in both sequences, expectation 1 in 0..2', min_reach=0)
+ob(name='world.call.mock_func', kind='BL', props=['C01', 'C02', 'C03', 'C05', 'C07', 'C08', 'C14', 'C15', 'C16', 'C17'], unit='world_ii', harness='h_world.c', entry='w_call',
+   variants=world_variants(3, 1), variants_thorough=world_variants(4, 1), unwind=10, timeout=1800,
+   bound=_BOUND % 'N=3 expectations (thorough 4), <=1 of 2 sequences each, 1 condition and 1 side effect each', min_reach=0)
+
+def with_target(vs, n):
+    out = []
+    for tag, d in vs:
+        for t in range(n):
+            dd = dict(d); dd['W_T'] = t
+            out.append(('%s.T%d' % (tag, t), dd))
+    return out
+
+ob(name='world.dtor.expectation_lifetime_ends', kind='BL', props=['C01', 'C04', 'C06', 'C14', 'C15'], unit='world_ii', harness='h_world.c', entry='w_dtor',
+   variants=with_target(world_variants(3, 1), 3), unwind=10, timeout=900,
+   bound=_BOUND % 'N=3 expectations x target expectation, <=1 of 2 sequences each', min_reach=0)
+ob(name='world.dtor.expectation_lifetime_ends.two_sequences', kind='BL', props=['C04', 'C06', 'C14'], unit='world_ii', harness='h_world.c', entry='w_dtor',
+   variants=with_target(world_variants(2, 2, True), 1), unwind=10, timeout=900,
+   bound=_BOUND % 'N=2 expectations, target in both sequences', min_reach=0)
+ob(name='world.mockdtor.mock_dies_first', kind='BL', props=['C04', 'C06', 'C14', 'C15'], unit='world_ii', harness='h_world.c', entry='w_mockdtor',
+   variants=world_variants(3, 1), unwind=10, timeout=900, bound=_BOUND % 'N=3 expectations, <=1 of 2 sequences each', min_reach=0)
+ob(name='world.seqdtor.sequence_object_dies', kind='BL', props=['C06', 'C14', 'C15'], unit='world_ii', harness='h_world.c', entry='w_seqdtor',
+   variants=world_variants(3, 1), unwind=10, timeout=900, bound=_BOUND % 'N=3 expectations, <=1 of 2 sequences each', min_reach=0)
+ob(name='world.seqdtor_then_call.calls_continue', kind='BL', props=['C14'], unit='world_ii', harness='h_world.c', entry='w_seqdtor_then_call',
+   variants=world_variants(2, 1), unwind=10, timeout=900, bound=_BOUND % 'N=2 expectations, <=1 of 2 sequences each', min_reach=0)
+ob(name='world.queries', kind='BL', props=['C03', 'C06', 'C07'], unit='world_ii', harness='h_world.c', entry='w_queries',
+   variants=world_variants(3, 1), unwind=10, timeout=900, bound=_BOUND % 'N=3 expectations, <=1 of 2 sequences each', min_reach=0)
